@@ -21,7 +21,7 @@ package types
 //@   props C03 C10
 //@   requires b != nil && b.TokenInfo != nil && b.Amount != nil
 //@   requires 0 <= bigval(b.Amount) && bigval(b.Amount) < 115792089237316195423570985008687907853269984665640564039457584007913129639936
-//@   modifies b.Amount
+//@   modifies nothing
 //@   ensures[exit-leaf] result == exitLeafValue(b.LeafType, b.TokenInfo.OriginNetwork, b.TokenInfo.OriginTokenAddress, b.DestinationNetwork, b.DestinationAddress, bigval(b.Amount), ite(len(b.Metadata) == 0, bytesOf(hb(keccak(emptyB())), 32), bytesOf(seq(b.Metadata), len(b.Metadata))))
 //@   ensures[unchanged] b.Amount == old(b.Amount)
 
@@ -73,6 +73,28 @@ package types
 //@   props C10
 //@   requires c != nil && c.BridgeExit != nil && c.BridgeExit.TokenInfo != nil && c.BridgeExit.Amount != nil && c.ClaimData != nil && c.GlobalIndex != nil
 //@   requires 0 <= bigval(c.BridgeExit.Amount) && bigval(c.BridgeExit.Amount) < 115792089237316195423570985008687907853269984665640564039457584007913129639936
-//@   modifies c.BridgeExit.Amount
+//@   modifies nothing
 //@   ensures[commits-to-exit-claim-and-index] result == ibeHash(exitLeafValue(c.BridgeExit.LeafType, c.BridgeExit.TokenInfo.OriginNetwork, c.BridgeExit.TokenInfo.OriginTokenAddress, c.BridgeExit.DestinationNetwork, c.BridgeExit.DestinationAddress, bigval(c.BridgeExit.Amount), ite(len(c.BridgeExit.Metadata) == 0, bytesOf(hb(keccak(emptyB())), 32), bytesOf(seq(c.BridgeExit.Metadata), len(c.BridgeExit.Metadata)))), claimHash(c.ClaimData), keccak(catB(emptyB(), leB(giVal(c.GlobalIndex.MainnetFlag, c.GlobalIndex.RollupIndex, c.GlobalIndex.LeafIndex)))))
 //@   ensures[unchanged] c.BridgeExit.Amount == old(c.BridgeExit.Amount)
+//@ ghost var idExits map[int]Hash
+//@ ghost var idImported map[int]Hash
+//@ func (c *Certificate) Hash
+//@   props C10
+//@   requires c != nil
+//@   requires forall(k, 0, len(c.BridgeExits), c.BridgeExits[k] != nil && c.BridgeExits[k].TokenInfo != nil && c.BridgeExits[k].Amount != nil && 0 <= bigval(c.BridgeExits[k].Amount) && bigval(c.BridgeExits[k].Amount) < 115792089237316195423570985008687907853269984665640564039457584007913129639936)
+//@   requires forall(k, 0, len(c.ImportedBridgeExits), c.ImportedBridgeExits[k] != nil && c.ImportedBridgeExits[k].BridgeExit != nil && c.ImportedBridgeExits[k].BridgeExit.TokenInfo != nil && c.ImportedBridgeExits[k].BridgeExit.Amount != nil && c.ImportedBridgeExits[k].ClaimData != nil && c.ImportedBridgeExits[k].GlobalIndex != nil && 0 <= bigval(c.ImportedBridgeExits[k].BridgeExit.Amount) && bigval(c.ImportedBridgeExits[k].BridgeExit.Amount) < 115792089237316195423570985008687907853269984665640564039457584007913129639936)
+//@   modifies idExits, idImported
+//@   choose idExits with forall(k, 0, len(c.BridgeExits), idExits[k] == hashOf(seq(bridgeExitsHashes[k])))
+//@   choose idImported with forall(k, 0, len(c.ImportedBridgeExits), idImported[k] == hashOf(seq(importedBridgeExitsHashes[k])))
+//@   ensures[exit-chunks-are-the-exit-leaf-values] forall(k, 0, len(c.BridgeExits), idExits[k] == exitLeafValue(c.BridgeExits[k].LeafType, c.BridgeExits[k].TokenInfo.OriginNetwork, c.BridgeExits[k].TokenInfo.OriginTokenAddress, c.BridgeExits[k].DestinationNetwork, c.BridgeExits[k].DestinationAddress, bigval(c.BridgeExits[k].Amount), ite(len(c.BridgeExits[k].Metadata) == 0, bytesOf(hb(keccak(emptyB())), 32), bytesOf(seq(c.BridgeExits[k].Metadata), len(c.BridgeExits[k].Metadata)))))
+//@   ensures[imported-chunks-commit-to-exit-claim-and-index] forall(k, 0, len(c.ImportedBridgeExits), idImported[k] == ibeHash(exitLeafValue(c.ImportedBridgeExits[k].BridgeExit.LeafType, c.ImportedBridgeExits[k].BridgeExit.TokenInfo.OriginNetwork, c.ImportedBridgeExits[k].BridgeExit.TokenInfo.OriginTokenAddress, c.ImportedBridgeExits[k].BridgeExit.DestinationNetwork, c.ImportedBridgeExits[k].BridgeExit.DestinationAddress, bigval(c.ImportedBridgeExits[k].BridgeExit.Amount), ite(len(c.ImportedBridgeExits[k].BridgeExit.Metadata) == 0, bytesOf(hb(keccak(emptyB())), 32), bytesOf(seq(c.ImportedBridgeExits[k].BridgeExit.Metadata), len(c.ImportedBridgeExits[k].BridgeExit.Metadata)))), claimHash(c.ImportedBridgeExits[k].ClaimData), keccak(catB(emptyB(), leB(giVal(c.ImportedBridgeExits[k].GlobalIndex.MainnetFlag, c.ImportedBridgeExits[k].GlobalIndex.RollupIndex, c.ImportedBridgeExits[k].GlobalIndex.LeafIndex))))))
+//@   ensures[identity] result == keccak(catB(catB(catB(catB(catB(catB(emptyB(), beNB(c.NetworkID, 4)), beNB(c.Height, 8)), bytesOf(hb(c.PrevLocalExitRoot), 32)), bytesOf(hb(c.NewLocalExitRoot), 32)), bytesOf(hb(keccak(chainH(idExits, len(c.BridgeExits)))), 32)), bytesOf(hb(keccak(chainH(idImported, len(c.ImportedBridgeExits)))), 32)))
+//@   loop 0 invariant forall(k, 0, len(c.BridgeExits), c.BridgeExits[k] != nil && c.BridgeExits[k].TokenInfo != nil && c.BridgeExits[k].Amount != nil && 0 <= bigval(c.BridgeExits[k].Amount) && bigval(c.BridgeExits[k].Amount) < 115792089237316195423570985008687907853269984665640564039457584007913129639936)
+//@   loop 0 invariant forall(k, 0, len(c.ImportedBridgeExits), c.ImportedBridgeExits[k] != nil && c.ImportedBridgeExits[k].BridgeExit != nil && c.ImportedBridgeExits[k].BridgeExit.TokenInfo != nil && c.ImportedBridgeExits[k].BridgeExit.Amount != nil && c.ImportedBridgeExits[k].ClaimData != nil && c.ImportedBridgeExits[k].GlobalIndex != nil && 0 <= bigval(c.ImportedBridgeExits[k].BridgeExit.Amount) && bigval(c.ImportedBridgeExits[k].BridgeExit.Amount) < 115792089237316195423570985008687907853269984665640564039457584007913129639936)
+//@   loop 0 invariant 0 <= rangeindex + 1 && len(bridgeExitsHashes) == len(c.BridgeExits) && off(bridgeExitsHashes) == 0 && fresh(ref(bridgeExitsHashes))
+//@   loop 0 invariant forall(k, 0, rangeindex + 1, len(bridgeExitsHashes[k]) == 32 && hashOf(seq(bridgeExitsHashes[k])) == exitLeafValue(c.BridgeExits[k].LeafType, c.BridgeExits[k].TokenInfo.OriginNetwork, c.BridgeExits[k].TokenInfo.OriginTokenAddress, c.BridgeExits[k].DestinationNetwork, c.BridgeExits[k].DestinationAddress, bigval(c.BridgeExits[k].Amount), ite(len(c.BridgeExits[k].Metadata) == 0, bytesOf(hb(keccak(emptyB())), 32), bytesOf(seq(c.BridgeExits[k].Metadata), len(c.BridgeExits[k].Metadata)))))
+//@   loop 1 invariant forall(k, 0, len(c.BridgeExits), c.BridgeExits[k] != nil && c.BridgeExits[k].TokenInfo != nil && c.BridgeExits[k].Amount != nil && 0 <= bigval(c.BridgeExits[k].Amount) && bigval(c.BridgeExits[k].Amount) < 115792089237316195423570985008687907853269984665640564039457584007913129639936)
+//@   loop 1 invariant forall(k, 0, len(c.ImportedBridgeExits), c.ImportedBridgeExits[k] != nil && c.ImportedBridgeExits[k].BridgeExit != nil && c.ImportedBridgeExits[k].BridgeExit.TokenInfo != nil && c.ImportedBridgeExits[k].BridgeExit.Amount != nil && c.ImportedBridgeExits[k].ClaimData != nil && c.ImportedBridgeExits[k].GlobalIndex != nil && 0 <= bigval(c.ImportedBridgeExits[k].BridgeExit.Amount) && bigval(c.ImportedBridgeExits[k].BridgeExit.Amount) < 115792089237316195423570985008687907853269984665640564039457584007913129639936)
+//@   loop 1 invariant 0 <= rangeindex + 1 && len(importedBridgeExitsHashes) == len(c.ImportedBridgeExits) && off(importedBridgeExitsHashes) == 0 && fresh(ref(importedBridgeExitsHashes)) && len(bridgeExitsHashes) == len(c.BridgeExits) && off(bridgeExitsHashes) == 0
+//@   loop 1 invariant forall(k, 0, len(c.BridgeExits), len(bridgeExitsHashes[k]) == 32 && hashOf(seq(bridgeExitsHashes[k])) == exitLeafValue(c.BridgeExits[k].LeafType, c.BridgeExits[k].TokenInfo.OriginNetwork, c.BridgeExits[k].TokenInfo.OriginTokenAddress, c.BridgeExits[k].DestinationNetwork, c.BridgeExits[k].DestinationAddress, bigval(c.BridgeExits[k].Amount), ite(len(c.BridgeExits[k].Metadata) == 0, bytesOf(hb(keccak(emptyB())), 32), bytesOf(seq(c.BridgeExits[k].Metadata), len(c.BridgeExits[k].Metadata)))))
+//@   loop 1 invariant forall(k, 0, rangeindex + 1, len(importedBridgeExitsHashes[k]) == 32 && hashOf(seq(importedBridgeExitsHashes[k])) == ibeHash(exitLeafValue(c.ImportedBridgeExits[k].BridgeExit.LeafType, c.ImportedBridgeExits[k].BridgeExit.TokenInfo.OriginNetwork, c.ImportedBridgeExits[k].BridgeExit.TokenInfo.OriginTokenAddress, c.ImportedBridgeExits[k].BridgeExit.DestinationNetwork, c.ImportedBridgeExits[k].BridgeExit.DestinationAddress, bigval(c.ImportedBridgeExits[k].BridgeExit.Amount), ite(len(c.ImportedBridgeExits[k].BridgeExit.Metadata) == 0, bytesOf(hb(keccak(emptyB())), 32), bytesOf(seq(c.ImportedBridgeExits[k].BridgeExit.Metadata), len(c.ImportedBridgeExits[k].BridgeExit.Metadata)))), claimHash(c.ImportedBridgeExits[k].ClaimData), keccak(catB(emptyB(), leB(giVal(c.ImportedBridgeExits[k].GlobalIndex.MainnetFlag, c.ImportedBridgeExits[k].GlobalIndex.RollupIndex, c.ImportedBridgeExits[k].GlobalIndex.LeafIndex))))))
